@@ -100,7 +100,14 @@ def main():
     with open(os.path.join(dst, 'demo' + os.path.splitext(demo)[1]), 'w') as f:
         f.write(text)
     meta['breaks_property'] = a.prop
-    meta['confirmation'] = confirm
+    prev = {}
+    if os.path.exists(os.path.join(dst, 'meta.json')):
+        prev = json.load(open(os.path.join(dst, 'meta.json')))
+    meta['confirmation'] = confirm or prev.get('confirmation', {})
+    hist = prev.get('history', [])
+    if prev.get('checks_run'):
+        hist.append({'detected_by': prev.get('detected_by'), 'checks_run': {c: {'exit': r['exit']} for c, r in prev['checks_run'].items()}})
+    meta['history'] = hist
     meta['checks_run'] = results
     meta['detected_by'] = sorted(c for c, r in results.items() if r['exit'] == 1)
     meta['ran'] = 'tools/seed_eval.py %s %s --checks %s (patch applied to /repo with git apply, quick tier, undone with git checkout -- .); demonstration rewritten to import /repo' % (a.prop, a.k, ','.join(checks))
